@@ -29,6 +29,9 @@ C={
  'C08':('exploration','lock-step reference-model monitor (fid-table model) with FS-call log, fid-table hook and quiescence hang detector',
         'Random and systematically enumerated call sequences run on the real SFileSys over an instrumented file system; after every call the outcome, the exact FS calls and the whole fid table (via the verif hook) are compared with a sequential reference model; unreturned calls at quiescence are hangs.',
         'trusted: harness/fsx model (DESIGN App. A) incl. its documented relations; instrumented FS deterministic; hook p9p.VerifFidTable'),
+ 'C10':('exploration','frame-length monitor on the parsed wire in both directions + min-rule oracle over boundary-dense proposals/answers',
+        'Raw clients propose every boundary msize/version to the real ServeConn and a fake server answers every boundary msize/version to the real CSession; after the handshake a battery of maximal reads/writes, exact-fit frames, long strings and oversize handler results runs while every frame on the wire is measured against the agreed minimum; refusals must not dispatch anything.',
+        'trusted: refcodec wire parsing; server maximum = DefaultMSize'),
  'C11':('fault_enumeration','fault enumeration over a recorded run (inbound byte offsets, reply writes, reply counts x in-flight behaviours) with quiescence-based return detection, Stop counter, fid-table hook and release monitor, race detector',
         'Scripts with a completed prologue and an in-flight set parked inside FS calls are run against the real ServeConn+SSession+SFileSys on a fault-injecting connection; one fault per run at every enumerated index (read error/EOF at byte k, failing reply write j also with the write parked and work queued behind it, ctx cancel after e replies) x handlers that fail on cancel / succeed after cancel / already finished. Checks: in-flight ctxs cancelled, ServeConn returned at quiescence, Stop exactly once, fid table empty, every handed-out entry released exactly once, no crash.',
         'trusted: handlers wake on ctx.Done (proviso); virtual deadlines; exhaustive over fault indices of the tier scripts, server-internal goroutine schedule sampled'),
